@@ -33,7 +33,12 @@ def slice_norm(e):
         return _compose(base, s, t)
     if e[0] == "field" and e[2] in ("0", "1"):
         c = flow.strip(e[1])
-        if c[0] == "call" and flow.short(c[1]).endswith("split_at") and len(c[3]) == 2:
+        # the Some payload of split_at_checked / split_first_chunk is the same pair
+        if c[0] == "field" and c[2] == "0" and flow.strip(c[1])[0] == "variant" and flow.strip(c[1])[2] == "Some":
+            inner = flow.strip(flow.strip(c[1])[1])
+            if inner[0] == "call" and flow.short(inner[1]).endswith("split_at_checked"):
+                c = inner
+        if c[0] == "call" and flow.short(c[1]).endswith(("split_at", "split_at_checked")) and len(c[3]) == 2:
             base = slice_norm(c[3][0])
             mid = int_value(c[3][1])
             if base is None or mid is None:
@@ -76,5 +81,13 @@ def verify_samples(ctx, vb, needs):
         if x[0] == "call" and flow.short(x[1]).endswith("len") and x[3] and param_name(x[3][0]) == "signed":
             return L
         return None
+    def switch_eval(e, ls, L):
+        # `signed.split_at_checked(n)` / `signed.get(..n)` are Some iff len >= n
+        x = flow.strip(e)
+        if x[0] == "call" and flow.short(x[1]).endswith("split_at_checked") and len(x[3]) == 2 and param_name(x[3][0]) == "signed":
+            n = int_value(x[3][1])
+            if n is not None:
+                return ("Some",) if L >= n else ("None",)
+        return None
     vals = sorted(set([0, 1, 1000] + [v for n in needs if n for v in (n - 1, n, n + 1)]))
-    return Samples(ctx, vb, atom, vals)
+    return Samples(ctx, vb, atom, vals, switch_eval=switch_eval)
